@@ -157,7 +157,7 @@ class Style:
             else 0
         )
 
-        self._link = link
+        self._link = link or None
         self._link_id = f"{time()}-{randint(0, 999999)}" if link else ""
         self._hash = hash(
             (
@@ -165,7 +165,7 @@ class Style:
                 self._bgcolor,
                 self._attributes,
                 self._set_attributes,
-                link,
+                self._link,
             )
         )
         self._null = not (self._set_attributes or color or bgcolor or link)
@@ -592,7 +592,7 @@ class Style:
         style._bgcolor = self._bgcolor
         style._attributes = self._attributes
         style._set_attributes = self._set_attributes
-        style._link = link
+        style._link = link or None
         style._link_id = f"{time()}-{randint(0, 999999)}" if link else ""
         style._hash = None
         style._null = False
